@@ -15,6 +15,7 @@ EXPLANATION = (
     "bookkeeping is paired: the snip test is membership in the active set, nodes are added to the active set when pushed and "
     "removed when popped, replaced children are the snipped ones; "
     "the children that are boxed are exactly the partition's true side (resolved by binding, so a shadowing filter is seen)."
+    " (W3, marking) `visited.insert` marks only the node being expanded, never a child while its parent's child list is filtered."
 )
 ASSUMPTIONS = ["external generic natives hold their parameters behind indirection or are otherwise sized (opaque to the analysis)"]
 
